@@ -19,35 +19,41 @@ import (
 // C12 — parser acceptance agrees with the real shells, at token level.
 func init() { register("C12", c12) }
 
-// c12Toks is the token alphabet: name on the op line -> rendering.
-var c12Render = map[string]string{
-	"W": "a", "N": "a-b", "Q": "'q'", "A": "x=1",
-	">": ">", "<": "<", "2>": "2>",
-	"if": "if", "then": "then", "elif": "elif", "else": "else", "fi": "fi",
-	"while": "while", "until": "until", "do": "do", "done": "done",
-	"for": "for", "in": "in", "case": "case", "esac": "esac",
-	"{": "{", "}": "}", "!": "!",
-	"(": "(", ")": ")", ";": ";", "&": "&", "&&": "&&", "||": "||", "|": "|", ";;": ";;",
-	"NL": "\n",
+// c12Variants is the token alphabet: class name on the op line -> concrete renderings.  The model
+// works on classes; every rendering of a class must behave alike (that is part of the tie).
+var c12Variants = map[string][]string{
+	"W": {"a", "b", "foo", "x1"}, "Q": {"'q'", "\"q r\"", "$x", "a'b'"}, "A": {"x=1", "y="},
+	">": {">", "<", ">>", ">|"},
+	"if": {"if"}, "then": {"then"}, "elif": {"elif"}, "else": {"else"}, "fi": {"fi"},
+	"while": {"while"}, "until": {"until"}, "do": {"do"}, "done": {"done"},
+	"for": {"for"}, "in": {"in"}, "case": {"case"}, "esac": {"esac"},
+	"{": {"{"}, "}": {"}"}, "!": {"!"},
+	"(": {"("}, ")": {")"}, ";": {";"}, "&": {"&"}, "&&": {"&&"}, "||": {"||"}, "|": {"|"}, ";;": {";;"},
+	"NL": {"\n"},
 }
 
-var c12Full = []string{"W", "N", "Q", "A", ">", "<", "2>",
+var c12Full = []string{"W", "Q", "A", ">",
 	"if", "then", "elif", "else", "fi", "while", "until", "do", "done", "for", "in", "case", "esac",
 	"{", "}", "!", "(", ")", ";", "&", "&&", "||", "|", ";;", "NL"}
 
-func c12Src(toks []string) string {
+// c12Src renders a token list: tokens separated by one blank, no trailing newline.  r == nil
+// selects the first rendering of every class.
+func c12Src(toks []string, r *Rand) string {
 	var sb strings.Builder
 	for i, t := range toks {
-		r, ok := c12Render[t]
+		vs, ok := c12Variants[t]
 		if !ok {
 			panic("bad token " + t)
 		}
 		if i > 0 {
 			sb.WriteByte(' ')
 		}
-		sb.WriteString(r)
+		if r == nil {
+			sb.WriteString(vs[0])
+		} else {
+			sb.WriteString(vs[r.Intn(len(vs))])
+		}
 	}
-	sb.WriteByte('\n')
 	return sb.String()
 }
 
@@ -106,6 +112,447 @@ func c12Shell(c *Ctx, shell, dir string, id int, src string) string {
 	return "acc"
 }
 
+
+// ---------------------------------------------------------------------------------------------
+// Go transliteration of the Lean model (ShVerif.C12.parse): a statement-level recursive descent on
+// token classes, parametrised by the rule variants in which Go's parser and the real shells differ.
+// It is used by the search leg only, to decide whether a Go-vs-shell disagreement lies inside a
+// region already explained by a *known* rule variant.  (The Lean model itself is tied to the real
+// parser through the op stream; this copy is tied to both on every case as well.)
+
+type c12Cfg struct {
+	posix bool // LangPOSIX (function-name check, no `for … {`)
+	// rule variants; the value of goCfg is the behaviour of syntax/parser.go
+	elseInCmd   bool // `else` / `in` may be a command name when they are not a stop word
+	rsrvAfterIO bool // after a redirection prefix reserved words are still reserved
+	bangAlone   bool // `!` may stand alone / be repeated
+	fnBody      int  // function body: 0 any and-or list (Go), 1 one command (dash), 2 compound command (bash)
+	forBrace    bool // `for x; { …; }`
+}
+
+func c12GoCfg(posix bool) c12Cfg {
+	return c12Cfg{posix: posix, elseInCmd: true, rsrvAfterIO: true, bangAlone: false, fnBody: 0, forBrace: !posix}
+}
+
+// c12ShCfg is the grammar of the real shell of the language (bash for Bash, dash for POSIX).
+func c12ShCfg(posix bool) c12Cfg {
+	if posix {
+		return c12Cfg{posix: true, elseInCmd: false, rsrvAfterIO: false, bangAlone: false, fnBody: 1, forBrace: false}
+	}
+	return c12Cfg{posix: false, elseInCmd: false, rsrvAfterIO: false, bangAlone: true, fnBody: 2, forBrace: true}
+}
+
+type c12Quote int
+
+const (
+	qNone c12Quote = iota
+	qSub
+	qCase
+)
+
+type c12P struct {
+	ts  []string
+	i   int
+	err bool
+	cfg c12Cfg
+}
+
+func (p *c12P) tok() string {
+	if p.err || p.i >= len(p.ts) {
+		return ""
+	}
+	return p.ts[p.i]
+}
+func (p *c12P) fail()  { p.err = true }
+func (p *c12P) next()  { p.i++ }
+func (p *c12P) got(t string) bool {
+	if p.tok() == t {
+		p.next()
+		return true
+	}
+	return false
+}
+func (p *c12P) gotNL() bool {
+	g := false
+	for p.tok() == "NL" {
+		p.next()
+		g = true
+	}
+	return g
+}
+
+var c12Rsrv = map[string]bool{"if": true, "then": true, "elif": true, "else": true, "fi": true, "while": true,
+	"until": true, "do": true, "done": true, "for": true, "in": true, "case": true, "esac": true, "{": true, "}": true, "!": true}
+
+func c12LitWord(t string) bool { return t == "W" || t == "A" || c12Rsrv[t] }
+func c12WordStart(t string) bool { return c12LitWord(t) || t == "Q" }
+func c12Stop(t string) bool {
+	switch t {
+	case "", "NL", ";", "&", "|", "&&", "||", ";;", ")":
+		return true
+	}
+	return false
+}
+
+func (p *c12P) getWord() bool {
+	if c12WordStart(p.tok()) {
+		p.next()
+		return true
+	}
+	return false
+}
+
+func (p *c12P) redirect() {
+	p.next()
+	if !p.getWord() {
+		p.fail()
+	}
+}
+
+func (p *c12P) expect(t string) {
+	if !p.got(t) {
+		p.fail()
+	}
+}
+
+// stmts returns the number of statements read.
+func (p *c12P) stmts(q c12Quote, stops ...string) int {
+	gotEnd := true
+	n := 0
+loop:
+	for p.tok() != "" {
+		newLine := p.gotNL()
+		t := p.tok()
+		switch {
+		case c12LitWord(t):
+			for _, s := range stops {
+				if t == s {
+					break loop
+				}
+			}
+			if t == "}" {
+				p.fail()
+			}
+		case t == ")":
+			if q == qSub {
+				break loop
+			}
+		case t == ";;":
+			if q == qCase {
+				break loop
+			}
+			p.fail()
+		}
+		if !newLine && !gotEnd {
+			p.fail()
+		}
+		if p.tok() == "" {
+			break
+		}
+		ok, semi := p.getStmt(q, true, false)
+		if !ok {
+			p.fail()
+			break
+		}
+		n++
+		gotEnd = semi
+	}
+	return n
+}
+
+func (p *c12P) followStmts(q c12Quote, stops ...string) {
+	if p.stmts(q, stops...) < 1 {
+		p.fail()
+	}
+}
+
+func (p *c12P) getStmt(q c12Quote, readEnd, binCmd bool) (ok, semi bool) {
+	neg := false
+	if p.got("!") {
+		neg = true
+		if !p.cfg.bangAlone {
+			if c12Stop(p.tok()) {
+				p.fail()
+			}
+			if p.tok() == "!" {
+				p.fail()
+			}
+		}
+	}
+	if !p.pipe(q, neg, false) || p.err {
+		return false, false
+	}
+	for p.tok() == "&&" || p.tok() == "||" {
+		if binCmd {
+			return true, false
+		}
+		p.next()
+		p.gotNL()
+		if ok, _ := p.getStmt(q, false, true); !ok || p.err {
+			p.fail()
+			return false, false
+		}
+	}
+	if readEnd && (p.tok() == ";" || p.tok() == "&") {
+		p.next()
+		semi = true
+	}
+	return true, semi
+}
+
+func (p *c12P) pipe(q c12Quote, neg, binCmd bool) bool {
+	pre := false
+	for p.tok() == ">" {
+		p.redirect()
+		pre = true
+	}
+	cmd, call := false, false
+	t := p.tok()
+	switch {
+	case pre && !p.cfg.rsrvAfterIO && c12LitWord(t) && t != "A":
+		// the real shells: after a redirection no reserved word is recognised
+		p.next()
+		if p.tok() == "(" {
+			p.fail()
+		}
+		p.callExpr(q, 1)
+		cmd, call = true, true
+	case c12LitWord(t):
+		compound := true
+		switch t {
+		case "{":
+			p.next()
+			p.followStmts(q, "}")
+			p.expect("}")
+		case "if":
+			p.next()
+			p.followStmts(q, "then")
+			p.expect("then")
+			p.followStmts(q, "fi", "elif", "else")
+			for p.tok() == "elif" {
+				p.next()
+				p.followStmts(q, "then")
+				p.expect("then")
+				p.followStmts(q, "fi", "elif", "else")
+			}
+			if p.got("else") {
+				p.followStmts(q, "fi")
+			}
+			p.expect("fi")
+		case "while", "until":
+			p.next()
+			p.followStmts(q, "do")
+			p.expect("do")
+			p.followStmts(q, "done")
+			p.expect("done")
+		case "for":
+			p.next()
+			if !c12LitWord(p.tok()) {
+				p.fail()
+			}
+			p.next()
+			if p.got(";") {
+				p.gotNL()
+			} else {
+				p.gotNL()
+				if p.got("in") {
+					for !c12Stop(p.tok()) {
+						if !p.getWord() {
+							p.fail()
+						}
+					}
+					p.got(";")
+					p.gotNL()
+				} else if p.tok() != "do" {
+					p.fail()
+				}
+			}
+			end := "done"
+			if p.tok() == "{" {
+				if !p.cfg.forBrace {
+					p.fail()
+				}
+				p.next()
+				end = "}"
+			} else {
+				p.expect("do")
+			}
+			p.followStmts(q, end)
+			p.expect(end)
+		case "case":
+			p.next()
+			if !p.getWord() {
+				p.fail()
+			}
+			p.gotNL()
+			if p.tok() == "{" {
+				p.fail()
+			}
+			p.expect("in")
+			p.gotNL()
+			for p.tok() != "" && p.tok() != "esac" {
+				p.got("(")
+				for p.tok() != "" {
+					if !p.getWord() {
+						p.fail()
+					}
+					if p.tok() == ")" {
+						break
+					}
+					if !p.got("|") {
+						p.fail()
+					}
+				}
+				p.next() // the `)`
+				p.stmts(qCase, "esac")
+				if p.tok() != ";;" {
+					break
+				}
+				p.next()
+				p.gotNL()
+			}
+			p.expect("esac")
+		case "}", "then", "elif", "fi", "do", "done", "esac":
+			p.fail()
+			compound = false
+		case "!":
+			if !neg {
+				p.fail()
+			}
+			compound = false
+		case "else", "in":
+			if !p.cfg.elseInCmd {
+				p.fail()
+			}
+			compound = false
+		default:
+			compound = false
+		}
+		if compound {
+			cmd = true
+			break
+		}
+		if p.err {
+			break
+		}
+		if t == "A" {
+			p.next()
+			p.callExpr(q, 0)
+			cmd, call = true, true
+			break
+		}
+		p.next()
+		if p.tok() == "(" {
+			p.next()
+			p.expect(")")
+			if p.cfg.posix && t == "!" {
+				p.fail()
+			}
+			p.funcBody(q)
+			cmd = true
+		} else {
+			p.callExpr(q, 1)
+			cmd, call = true, true
+		}
+	case t == "Q":
+		p.next()
+		if p.got("(") {
+			p.fail()
+		}
+		p.callExpr(q, 1)
+		cmd, call = true, true
+	case t == "(":
+		p.next()
+		p.followStmts(qSub)
+		p.expect(")")
+		cmd = true
+	}
+	if !cmd && !pre {
+		return false
+	}
+	if pre && cmd && !call {
+		p.fail()
+	}
+	for p.tok() == ">" {
+		p.redirect()
+	}
+	for p.tok() == "|" {
+		if binCmd {
+			return true
+		}
+		p.next()
+		p.gotNL()
+		if !p.pipe(q, false, true) || p.err {
+			p.fail()
+			break
+		}
+	}
+	return true
+}
+
+func (p *c12P) funcBody(q c12Quote) {
+	p.gotNL()
+	switch p.cfg.fnBody {
+	case 0:
+		if ok, _ := p.getStmt(q, false, false); !ok {
+			p.fail()
+		}
+	case 1:
+		if !p.pipe(q, false, true) {
+			p.fail()
+		}
+	default:
+		switch p.tok() {
+		case "{", "(", "if", "while", "until", "for", "case":
+			if !p.pipe(q, false, true) {
+				p.fail()
+			}
+		default:
+			p.fail()
+		}
+	}
+}
+
+func (p *c12P) callExpr(q c12Quote, nargs int) {
+	for {
+		t := p.tok()
+		switch {
+		case t == "" || t == "NL" || t == ";" || t == "&" || t == "|" || t == "&&" || t == "||" || t == ";;":
+			return
+		case c12LitWord(t):
+			if nargs == 0 && t == "A" {
+				p.next()
+			} else {
+				p.next()
+				nargs++
+			}
+		case t == "Q":
+			p.next()
+			nargs++
+		case t == "(":
+			p.fail()
+		case t == ")":
+			if q == qSub {
+				return
+			}
+			p.fail()
+		case t == ">":
+			p.redirect()
+		default:
+			p.fail()
+		}
+	}
+}
+
+func c12Model(cfg c12Cfg, toks []string) string {
+	p := &c12P{ts: toks, cfg: cfg}
+	p.stmts(qNone)
+	if p.err {
+		return "rej"
+	}
+	return "acc"
+}
+
 func c12Explore(c *Ctx) {
 	alpha := strings.Fields(os.Getenv("C12_ALPHA"))
 	if len(alpha) == 0 {
@@ -130,7 +577,7 @@ func c12Explore(c *Ctx) {
 	dir := scratchDir(c)
 	type res struct{ gb, gp, b, d string }
 	out := parallelMap(len(lists), 32, func(i int) res {
-		src := c12Src(lists[i])
+		src := c12Src(lists[i], nil)
 		return res{c12Go(syntax.LangBash, src), c12Go(syntax.LangPOSIX, src),
 			c12Shell(c, "bash", dir, i, src), c12Shell(c, "dash", dir, i, src)}
 	})
@@ -148,7 +595,345 @@ func c12Explore(c *Ctx) {
 	fmt.Printf("explored %d lists, %d disagreements\n", len(lists), len(lines))
 }
 
+
+// ---------------------------------------------------------------------------------------------
+// Structured generator: token lists derived from the shared core grammar.
+
+type c12Gen struct{ r *Rand }
+
+func (g c12Gen) word() string {
+	switch g.r.Intn(10) {
+	case 0, 1:
+		return "Q"
+	default:
+		return "W"
+	}
+}
+
+var c12RsrvList = []string{"if", "then", "elif", "else", "fi", "while", "until", "do", "done", "for", "in", "case", "esac", "{", "}", "!"}
+
+func (g c12Gen) arg() []string {
+	switch g.r.Intn(14) {
+	case 0:
+		return []string{"A"}
+	case 1:
+		return []string{g.r.Pick(c12RsrvList)}
+	case 2:
+		return []string{">", g.word()}
+	case 3:
+		return []string{"Q"}
+	default:
+		return []string{"W"}
+	}
+}
+
+func (g c12Gen) nls(p int) []string {
+	var out []string
+	for g.r.Chance(p) {
+		out = append(out, "NL")
+	}
+	return out
+}
+
+func (g c12Gen) sep() []string {
+	switch g.r.Intn(6) {
+	case 0:
+		return append([]string{"&"}, g.nls(30)...)
+	case 1, 2:
+		return append([]string{"NL"}, g.nls(20)...)
+	default:
+		return append([]string{";"}, g.nls(30)...)
+	}
+}
+
+func (g c12Gen) simple() []string {
+	var out []string
+	for g.r.Chance(15) {
+		if g.r.Bool() {
+			out = append(out, "A")
+		} else {
+			out = append(out, ">", g.word())
+		}
+	}
+	if len(out) == 0 || g.r.Chance(70) {
+		out = append(out, g.word())
+		for g.r.Chance(45) {
+			out = append(out, g.arg()...)
+		}
+	}
+	return out
+}
+
+func (g c12Gen) redirs() []string {
+	var out []string
+	for g.r.Chance(15) {
+		out = append(out, ">", g.word())
+	}
+	return out
+}
+
+func (g c12Gen) compoundList(d int) []string {
+	out := g.nls(15)
+	out = append(out, g.andOr(d)...)
+	for g.r.Chance(30) {
+		out = append(out, g.sep()...)
+		out = append(out, g.andOr(d)...)
+	}
+	return append(out, g.sep()...)
+}
+
+func (g c12Gen) compound(d int) []string {
+	var out []string
+	switch g.r.Intn(8) {
+	case 0:
+		out = append(append([]string{"{"}, g.compoundList(d)...), "}")
+	case 1:
+		out = []string{"("}
+		out = append(out, g.nls(10)...)
+		out = append(out, g.andOr(d)...)
+		if g.r.Chance(40) {
+			out = append(out, g.sep()...)
+		}
+		out = append(out, ")")
+	case 2, 3:
+		out = append(append([]string{"if"}, g.compoundList(d)...), "then")
+		out = append(out, g.compoundList(d)...)
+		for g.r.Chance(25) {
+			out = append(append(append(out, "elif"), g.compoundList(d)...), "then")
+			out = append(out, g.compoundList(d)...)
+		}
+		if g.r.Chance(40) {
+			out = append(append(out, "else"), g.compoundList(d)...)
+		}
+		out = append(out, "fi")
+	case 4:
+		kw := "while"
+		if g.r.Bool() {
+			kw = "until"
+		}
+		out = append(append([]string{kw}, g.compoundList(d)...), "do")
+		out = append(append(out, g.compoundList(d)...), "done")
+	case 5:
+		out = []string{"for", "W"}
+		switch g.r.Intn(5) {
+		case 0:
+		case 1:
+			out = append(append(out, ";"), g.nls(30)...)
+		case 2:
+			out = append(out, "NL")
+		default:
+			out = append(append(out, g.nls(20)...), "in")
+			for g.r.Chance(60) {
+				out = append(out, g.word())
+			}
+			out = append(out, g.sep()...)
+			if out[len(out)-1] == "&" {
+				out[len(out)-1] = ";"
+			}
+		}
+		out = append(append(append(out, "do"), g.compoundList(d)...), "done")
+	default:
+		out = append(append(append([]string{"case", g.word()}, g.nls(15)...), "in"), g.nls(30)...)
+		n := g.r.Intn(3)
+		for i := 0; i < n; i++ {
+			if g.r.Chance(30) {
+				out = append(out, "(")
+			}
+			out = append(out, g.word())
+			for g.r.Chance(25) {
+				out = append(out, "|", g.word())
+			}
+			out = append(out, ")")
+			if g.r.Chance(80) {
+				out = append(out, g.compoundList(d)...)
+				if g.r.Chance(30) && out[len(out)-1] != "NL" {
+					out = out[:len(out)-1]
+				}
+			} else {
+				out = append(out, g.nls(30)...)
+			}
+			if i < n-1 || g.r.Chance(70) {
+				out = append(append(out, ";;"), g.nls(40)...)
+			}
+		}
+		out = append(out, "esac")
+	}
+	return out
+}
+
+func (g c12Gen) command(d int) []string {
+	if d <= 0 {
+		return g.simple()
+	}
+	switch g.r.Intn(10) {
+	case 0, 1, 2:
+		return append(g.compound(d-1), g.redirs()...)
+	case 3:
+		out := append([]string{"W", "(", ")"}, g.nls(20)...)
+		if g.r.Chance(85) {
+			return append(append(out, g.compound(d-1)...), g.redirs()...)
+		}
+		return append(out, g.simple()...)
+	default:
+		return g.simple()
+	}
+}
+
+func (g c12Gen) pipeline(d int) []string {
+	var out []string
+	if g.r.Chance(10) {
+		out = append(out, "!")
+	}
+	out = append(out, g.command(d)...)
+	for g.r.Chance(15) {
+		out = append(append(out, "|"), g.nls(15)...)
+		out = append(out, g.command(d)...)
+	}
+	return out
+}
+
+func (g c12Gen) andOr(d int) []string {
+	out := g.pipeline(d)
+	for g.r.Chance(15) {
+		out = append(append(out, g.r.Pick([]string{"&&", "||"})), g.nls(15)...)
+		out = append(out, g.pipeline(d)...)
+	}
+	return out
+}
+
+func (g c12Gen) program(d int) []string {
+	out := g.nls(10)
+	out = append(out, g.andOr(d)...)
+	for g.r.Chance(25) {
+		out = append(out, g.sep()...)
+		out = append(out, g.andOr(d)...)
+	}
+	if g.r.Chance(40) {
+		out = append(out, g.sep()...)
+	}
+	return out
+}
+
+// c12Mutate applies one token-level insertion, deletion, replacement or swap.
+func c12Mutate(r *Rand, ts []string) []string {
+	out := append([]string(nil), ts...)
+	switch k := r.Intn(4); {
+	case k == 0 || len(out) == 0:
+		i := r.Intn(len(out) + 1)
+		out = append(out[:i], append([]string{r.Pick(c12Full)}, out[i:]...)...)
+	case k == 1:
+		i := r.Intn(len(out))
+		out = append(out[:i], out[i+1:]...)
+	case k == 2:
+		out[r.Intn(len(out))] = r.Pick(c12Full)
+	default:
+		if len(out) >= 2 {
+			i := r.Intn(len(out) - 1)
+			out[i], out[i+1] = out[i+1], out[i]
+		}
+	}
+	return out
+}
+
+// c12Sample: sampled grammar-vs-shell and Go-vs-shell exploration (development aid).
+func c12Sample(c *Ctx) {
+	n := 300
+	fmt.Sscan(os.Getenv("C12_SAMPLE"), &n)
+	g := c12Gen{c.R}
+	seen := map[string]bool{}
+	var lists [][]string
+	add := func(ts []string) {
+		k := strings.Join(ts, " ")
+		if len(ts) == 0 || len(ts) > 40 || seen[k] {
+			return
+		}
+		seen[k] = true
+		lists = append(lists, ts)
+	}
+	for i := 0; i < n; i++ {
+		ts := g.program(c.R.Intn(3))
+		add(ts)
+		for j := 0; j < 3; j++ {
+			add(c12Mutate(c.R, ts))
+		}
+	}
+	dir := scratchDir(c)
+	type res struct{ b, d string }
+	out := parallelMap(len(lists), 16, func(i int) res {
+		src := c12Src(lists[i], nil)
+		return res{c12Shell(c, "bash", dir, i, src), c12Shell(c, "dash", dir, i, src)}
+	})
+	var lines []string
+	acc := 0
+	for i, r := range out {
+		ts := lists[i]
+		mb, md := c12Model(c12ShCfg(false), ts), c12Model(c12ShCfg(true), ts)
+		if mb == "acc" {
+			acc++
+		}
+		if r.b != "timeout" && mb != r.b {
+			lines = append(lines, fmt.Sprintf("BASH grammar=%s sh=%s : %s", mb, r.b, strings.Join(ts, " ")))
+		}
+		if r.d != "timeout" && md != r.d {
+			lines = append(lines, fmt.Sprintf("DASH grammar=%s sh=%s : %s", md, r.d, strings.Join(ts, " ")))
+		}
+	}
+	sort.Slice(lines, func(i, j int) bool { return len(lines[i]) < len(lines[j]) })
+	os.WriteFile(filepath.Join(c.Out, "sample.txt"), []byte(strings.Join(lines, "\n")+"\n"), 0o644)
+	fmt.Printf("sampled %d lists (%d accepted by bash grammar), %d disagreements\n", len(lists), acc, len(lines))
+}
+
+// c12TieExplore: exhaustive Go-parser vs transliterated-model comparison (no shells).
+func c12TieExplore(c *Ctx) {
+	alpha := strings.Fields(os.Getenv("C12_ALPHA"))
+	if len(alpha) == 0 {
+		alpha = c12Full
+	}
+	maxLen := 4
+	fmt.Sscan(os.Getenv("C12_TIE"), &maxLen)
+	n, bad := 0, 0
+	cur := make([]string, 0, maxLen)
+	var rec func()
+	rec = func() {
+		if len(cur) > 0 {
+			n++
+			src := c12Src(cur, c.R)
+			for _, posix := range []bool{false, true} {
+				lang := syntax.LangBash
+				if posix {
+					lang = syntax.LangPOSIX
+				}
+				g, m := c12Go(lang, src), c12Model(c12GoCfg(posix), cur)
+				if g != m {
+					bad++
+					if bad < 200 {
+						fmt.Printf("TIE posix=%v go=%s model=%s : %s   [%q]\n", posix, g, m, strings.Join(cur, " "), src)
+					}
+				}
+			}
+		}
+		if len(cur) == maxLen {
+			return
+		}
+		for _, t := range alpha {
+			cur = append(cur, t)
+			rec()
+			cur = cur[:len(cur)-1]
+		}
+	}
+	rec()
+	fmt.Printf("tie-explored %d lists, %d mismatches\n", n, bad)
+}
+
 func c12(c *Ctx) {
+	if os.Getenv("C12_SAMPLE") != "" {
+		c12Sample(c)
+		return
+	}
+	if os.Getenv("C12_TIE") != "" {
+		c12TieExplore(c)
+		return
+	}
 	if os.Getenv("C12_EXPLORE") != "" {
 		c12Explore(c)
 		return
